@@ -486,6 +486,8 @@ def c09_jobs(tier):
             dict(harness="c09_step", flags=("-DC09_STUB_STEP",), pattern=r".", label="driver loops of TridiagEigen / UpperHessenbergSchur over a stalled step: iteration cap -> exception, no results", deadline=d)]
     if tier != "quick":
         jobs.append(dict(harness="c09_step", pattern=r"^trideig-step/n4/s0e3$", label="one real tridiagonal QR step, full 4x4 block [budgeted]", deadline=1200, cap=(20, 200), budget=True))
+        jobs.append(dict(harness="c09_step", pattern=r"^francis-step/", label="one real Francis double-shift step of UpperHessenbergSchur on an unreduced 3x3 window [budgeted: the degenerate 'nothing to rotate' branches stay undecided]",
+                         deadline=600, cap=(10, 60), budget=True))
     return jobs
 
 
@@ -507,9 +509,10 @@ SPECS["C09"] = dict(
     stubs=["step cases: Eigen::JacobiRotation::makeGivens := fresh (c,s) with c^2+s^2=1, s p + c q = 0 (checked on Eigen's real code, case givens/real)",
            "driver cases: tridiagonal_qr_step / perform_francis_qr_step := identity (no progress) or immediate deflation with fresh eigenvalues"],
     bounds={"quick": {"whole decompositions": "n = 2", "zero matrices": "n = 2,3,4", "tridiagonal QR step": "n = 2,3,4, active blocks of size 2 and 3", "driver / iteration cap": "TridiagEigen n = 2,3; Schur 3x3 window"},
-            "thorough": {"tridiagonal QR step": "+ full 4x4 block [budgeted]"}},
+            "thorough": {"tridiagonal QR step": "+ full 4x4 block [budgeted]", "Francis step": "3x3 window, near_0 = 0 [budgeted]"}},
     outside=["CONVERGENCE of the QR / Francis iterations for n >= 3 and their backward stability (the step invariant and the cap are decided; that the cap is not hit on ordinary input is not)",
-             "the Francis double-shift step of UpperHessenbergSchur itself (two nested Householder radicals per step; its building block DoubleShiftQR is decided under C08)",
+             "the Francis double-shift step of UpperHessenbergSchur in the quick tier (thorough, budgeted: on an unreduced 3x3 window the generic paths - 6 paths, 120 obligations - discharge in seconds, the degenerate "
+             "branches where a reflector / the trailing rotation has nothing to do leave feasibility questions undecided)",
              "UpperHessenbergEigen's eigenvalue extraction and back-substitution on symbolic input (harness cases exist; the nested radicals leave them undecided within the solver caps)",
              "matrices with negligible sub-diagonals or entries graded over more than 3 orders of magnitude (deflation thresholds make the result exact only to eps level)", ROUNDING],
     assumptions=["exact real arithmetic", "sub-diagonal > 1e-6*(|d0|+|d1|) + 1e-100 and all entries <= 1000*|sub-diagonal| (no threshold path)",
